@@ -61,6 +61,10 @@ type Op struct {
 	How  string   // r: ok | connerr | status | mismatch | dberr
 	CSR  string   // f: match | extra | missing | weakkey
 	Fail bool     // f: the final UpdateOrder fails
+	// storage fault for the duration of this request: every update write of challenge ("c"),
+	// authorization ("a") or order ("o") number DenyObj fails
+	Deny    string `json:",omitempty"`
+	DenyObj int    `json:",omitempty"`
 }
 
 type Case struct{ Ops []Op }
@@ -528,7 +532,7 @@ func (w *world) oracle(op Op, csrOK bool, prev, cur string) string {
 				allValid && op.Now <= w.ordExp[i] && (was == 'r' || was == 'p') && grew) {
 				return "VIOL:order-valid-cause"
 			}
-		} else if grew && !(op.K == "f" && op.Obj == i && op.Fail) {
+		} else if grew && !(op.K == "f" && op.Obj == i && (op.Fail || (op.Deny == "o" && op.DenyObj == i))) {
 			return "VIOL:certificate-without-transition"
 		}
 		if !w.faulty && cnt(cc, i) != "0" && cnt(cc, i) != "1" {
@@ -547,6 +551,15 @@ func (w *world) exec(op Op, prev string) (tok, out, dump string, err error) {
 	realNow := time.Now().UTC().Truncate(time.Second)
 	w.sh.off = w.t0.Add(time.Duration(op.Now) * time.Second).Sub(realNow)
 	w.sh.failOrderValid, w.sh.failChallenge = false, false
+	w.sh.denyTbl, w.sh.denyKey = nil, nil
+	switch op.Deny {
+	case "c":
+		w.sh.denyTbl, w.sh.denyKey = chalTbl, []byte(w.id(w.chals, op.DenyObj))
+	case "a":
+		w.sh.denyTbl, w.sh.denyKey = authzTbl, []byte(w.id(w.authzs, op.DenyObj))
+	case "o":
+		w.sh.denyTbl, w.sh.denyKey = orderTbl, []byte(w.id(w.orders, op.DenyObj))
+	}
 	bg := context.Background()
 	var code int
 	var body []byte
@@ -630,10 +643,14 @@ func (w *world) exec(op Op, prev string) (tok, out, dump string, err error) {
 	default:
 		return "", "", "", fmt.Errorf("unknown op %q", op.K)
 	}
-	if (op.K == "f" && op.Fail) || (op.K == "r" && op.How == "dberr") {
+	if (op.K == "f" && op.Fail) || (op.K == "r" && op.How == "dberr") || op.Deny != "" {
 		w.faulty = true
 	}
 	w.sh.failOrderValid, w.sh.failChallenge = false, false
+	w.sh.denyTbl, w.sh.denyKey = nil, nil
+	if op.Deny != "" {
+		tok += fmt.Sprintf("!%s%d", op.Deny, op.DenyObj)
+	}
 	if os.Getenv("VERIF_C10_DEBUG") != "" {
 		fmt.Fprintf(os.Stderr, "debug: %s -> %d %s\n", tok, code, strings.TrimSpace(string(body)))
 	}
@@ -721,7 +738,30 @@ func genCase(r *c.Rng) *Case {
 	var orders []shadowOrder
 	nchal, nauthz := 0, 0
 	n := 6 + r.Intn(30)
-	fault := r.Chance(1, 8) // a minority of histories contain injected storage faults
+	fault := r.Chance(1, 5) // a minority of histories contain injected storage faults
+	// deny: in faulty histories, let a request run while the writes of one authorization or of
+	// the order fail (the interesting point: an order is evaluated and a child write is lost)
+	deny := func(op Op, so shadowOrder, oi, firstAz int) Op {
+		if !fault || !r.Chance(1, 3) {
+			return op
+		}
+		switch r.Intn(4) {
+		case 0:
+			op.Deny, op.DenyObj = "o", oi
+		case 1:
+			op.Deny, op.DenyObj = "c", c.Pick(r, c.Pick(r, so.chals))
+		default:
+			op.Deny, op.DenyObj = "a", firstAz+r.Intn(len(so.chals))
+		}
+		return op
+	}
+	firstAzOf := func(orders []shadowOrder, oi int) int {
+		n := 0
+		for _, o := range orders[:oi] {
+			n += len(o.chals)
+		}
+		return n
+	}
 	newOrder := func() {
 		acct := 0
 		if r.Chance(1, 4) {
@@ -794,7 +834,7 @@ func genCase(r *c.Rng) *Case {
 				so.done[next] = true
 				k.Ops = append(k.Ops, Op{K: "r", Acct: so.acct, Obj: so.chals[next][0], Now: now, How: "ok"})
 			} else {
-				k.Ops = append(k.Ops, Op{K: "f", Acct: so.acct, Obj: oi, Now: now, CSR: "match", Fail: fault && r.Chance(1, 6)})
+				k.Ops = append(k.Ops, deny(Op{K: "f", Acct: so.acct, Obj: oi, Now: now, CSR: "match", Fail: fault && r.Chance(1, 6)}, so, oi, firstAzOf(orders, oi)))
 			}
 			continue
 		}
@@ -820,7 +860,7 @@ func genCase(r *c.Rng) *Case {
 			if r.Chance(1, 30) {
 				ch = nchal + r.Intn(2)
 			}
-			k.Ops = append(k.Ops, Op{K: "r", Acct: pickAcct(so.acct), Obj: ch, Now: now, How: how})
+			k.Ops = append(k.Ops, deny(Op{K: "r", Acct: pickAcct(so.acct), Obj: ch, Now: now, How: how}, so, oi, firstAzOf(orders, oi)))
 		case 9, 10:
 			first := 0
 			for _, o := range orders[:oi] {
@@ -830,13 +870,13 @@ func genCase(r *c.Rng) *Case {
 			if r.Chance(1, 30) {
 				a = nauthz + r.Intn(2)
 			}
-			k.Ops = append(k.Ops, Op{K: "a", Acct: pickAcct(so.acct), Obj: a, Now: now})
+			k.Ops = append(k.Ops, deny(Op{K: "a", Acct: pickAcct(so.acct), Obj: a, Now: now}, so, oi, first))
 		case 11, 12, 13:
 			o := oi
 			if r.Chance(1, 30) {
 				o = len(orders) + r.Intn(2)
 			}
-			k.Ops = append(k.Ops, Op{K: "o", Acct: pickAcct(so.acct), Obj: o, Now: now})
+			k.Ops = append(k.Ops, deny(Op{K: "o", Acct: pickAcct(so.acct), Obj: o, Now: now}, so, oi, firstAzOf(orders, oi)))
 		case 14, 15, 16, 17, 18:
 			how := "match"
 			switch r.Intn(12) {
@@ -851,14 +891,14 @@ func genCase(r *c.Rng) *Case {
 			if r.Chance(1, 30) {
 				o = len(orders) + r.Intn(2)
 			}
-			k.Ops = append(k.Ops, Op{K: "f", Acct: pickAcct(so.acct), Obj: o, Now: now, CSR: how, Fail: fault && r.Chance(1, 4)})
+			k.Ops = append(k.Ops, deny(Op{K: "f", Acct: pickAcct(so.acct), Obj: o, Now: now, CSR: how, Fail: fault && r.Chance(1, 4)}, so, oi, firstAzOf(orders, oi)))
 		case 19:
 			acct := so.acct
 			url := acct
 			if r.Chance(1, 8) {
 				url = 1 - acct
 			}
-			k.Ops = append(k.Ops, Op{K: "l", Acct: acct, Obj: url, Now: now})
+			k.Ops = append(k.Ops, deny(Op{K: "l", Acct: acct, Obj: url, Now: now}, so, oi, firstAzOf(orders, oi)))
 		}
 	}
 	return k
@@ -878,6 +918,12 @@ func corner() []*Case {
 		{Ops: []Op{{K: "n", IDs: []string{"dns:a.example.com"}}, {K: "r", Obj: 1, Now: 1, How: "mismatch"}, {K: "r", Obj: 1, Now: 2, How: "ok"}, {K: "a", Now: 3}, ok(0, 4), {K: "a", Now: 5}, {K: "o", Now: 6}}},
 		{Ops: []Op{{K: "n", IDs: []string{"dns:a.example.com"}}, ok(0, 1), {K: "f", Now: 2, CSR: "extra"}, {K: "f", Now: 3, CSR: "weakkey"}, {K: "f", Acct: 1, Now: 4, CSR: "match"},
 			{K: "f", Now: 5, CSR: "match", Fail: true}, {K: "o", Now: 6}, {K: "f", Now: 7, CSR: "match"}}},
+		// lost authorization write while the ORDER is evaluated (poll, finalize, orders list, new-order refresh)
+		{Ops: []Op{{K: "n", IDs: []string{"dns:a.example.com", "dns:b.example.com"}}, ok(0, 1), ok(3, 2), {K: "o", Now: 3, Deny: "a", DenyObj: 1},
+			{K: "f", Now: 4, CSR: "match", Deny: "a", DenyObj: 1}, {K: "l", Now: 5, Deny: "a", DenyObj: 0}, {K: "n", Now: 6, IDs: []string{"ip:10.0.0.1"}, Deny: "a", DenyObj: 1},
+			{K: "a", Obj: 1, Now: 7, Deny: "a", DenyObj: 1}, {K: "o", Now: lifetime + 1}, {K: "a", Obj: 1, Now: lifetime + 1}}},
+		{Ops: []Op{{K: "n", IDs: []string{"dns:a.example.com"}}, ok(0, 1), {K: "o", Now: 2, Deny: "o", DenyObj: 0}, {K: "f", Now: 3, CSR: "match", Deny: "o", DenyObj: 0},
+			{K: "o", Now: 4}, {K: "f", Now: 5, CSR: "match", Deny: "o", DenyObj: 0}, {K: "f", Now: 6, CSR: "match"}, {K: "r", Obj: 1, Now: 7, How: "mismatch", Deny: "c", DenyObj: 1}, {K: "r", Obj: 1, Now: 8, How: "connerr", Deny: "c", DenyObj: 1}}},
 		{Ops: []Op{{K: "n", IDs: []string{"dns:*.example.com"}}, {K: "r", Obj: 0, Now: 1, How: "dberr"}, ok(0, 2), {K: "n", Now: 3, IDs: nil}, {K: "n", Acct: 1, Now: 3, IDs: []string{"ip:fd00::1"}},
 			{K: "r", Acct: 1, Obj: 0, Now: 4, How: "ok"}, {K: "l", Acct: 0, Obj: 1, Now: 5}, {K: "o", Acct: 1, Obj: 0, Now: 6}, {K: "a", Acct: 0, Obj: 1, Now: 7}}},
 	}
@@ -887,6 +933,7 @@ func main() {
 	n := flag.Int("n", 200, "number of generated histories")
 	out := flag.String("out", "", "output file (input<TAB>impl)")
 	replay := flag.String("replay", "", "file of model input lines (case=… field) to re-run instead of generating")
+	stage := flag.String("stage", "histories", "histories | conc (interleavings of requests on one order, see conc.go)")
 	probe := flag.Int("probe-concurrent-finalize", 0, "not a check stage: run N rounds of two simultaneous finalize requests on one ready order and report how many orders ended with two certificates (C19 material)")
 	flag.Parse()
 	if err := setup(); err != nil {
@@ -905,6 +952,51 @@ func main() {
 		os.Exit(2)
 	}
 	defer o.Close()
+	if *replay != "" {
+		if data, err := os.ReadFile(*replay); err == nil && strings.HasPrefix(strings.TrimSpace(string(data)), "conc=") {
+			*stage = "conc" // ./check replays without stage arguments
+		}
+	}
+	if *stage == "conc" {
+		emitC := func(k *ConcCase) {
+			line, impl, err := runConc(k)
+			if err != nil {
+				fmt.Fprintln(os.Stderr, "case skipped:", err)
+				return
+			}
+			o.Case(line, impl)
+		}
+		if *replay != "" {
+			data, _ := os.ReadFile(*replay)
+			for _, l := range strings.Split(string(data), "\n") {
+				i := strings.Index(l, "case=x")
+				if i < 0 {
+					continue
+				}
+				h := l[i+6:]
+				if j := strings.IndexAny(h, " \t"); j >= 0 {
+					h = h[:j]
+				}
+				js, err := hex.DecodeString(h)
+				if err != nil {
+					continue
+				}
+				var k ConcCase
+				if json.Unmarshal(js, &k) == nil && k.Ths != "" {
+					emitC(&k)
+				}
+			}
+			return
+		}
+		for _, k := range cornerConc() {
+			emitC(k)
+		}
+		r := c.NewRng(c.Seed())
+		for i := 0; i < *n; i++ {
+			emitC(genConc(r.Fork()))
+		}
+		return
+	}
 	emit := func(k *Case) {
 		line, impl, err := runCase(k)
 		if err != nil {
@@ -947,6 +1039,8 @@ func main() {
 		emit(genCase(r.Fork()))
 	}
 }
+
+func timeSeconds(n int) time.Duration { return time.Duration(n) * time.Second }
 
 var _ = bytes.Equal
 var _ = sort.Strings
